@@ -4,8 +4,10 @@ C19 — format-agnostic wrappers and JSON serialization mirror the format-specif
 The wrappers are sum-type dispatch; in the model a wrapped view IS the view of the selected format,
 so "every method returns what the selected API returns" is carried by the correspondence run
 (every operation through `wf`/`wv` and through the specific constructor on the same image, compared
-with each other and with the model).  What the theorems add: the selection itself, and the modelled
-part of the serializer (headers, details, base relocations).
+with each other and with the model).  What the theorems add: the selection itself, and the header
+part of the serializer (headers, details, base relocations).  The serializer as a whole — all ten
+members of the document, totality, per-member equalities, well-formedness of the printed text — is
+`Thm/C19Json.lean`; the non-delegating wrapper methods are `Thm/C19Wrap.lean`.
 -/
 namespace Pelite.Pe
 
